@@ -28,7 +28,7 @@ Qed.
 Lemma first_new_nil ms : first_new [] ms = ms.
 Proof. unfold first_new. induction ms as [|x r IHr]; simpl; [reflexivity|]. f_equal. exact IHr. Qed.
 
-Lemma first_deliveries_len (b : bulk) (h : list bulk) :
+Lemma first_deliveries_len (b : list (meta * N)) (h : list (list (meta * N))) :
   length b <= length (first_deliveries (map (map fst) (b :: h))).
 Proof.
   unfold first_deliveries. simpl. etransitivity; [|apply fold_first_grows].
@@ -42,7 +42,7 @@ Proof.
   destruct h as [|b h]; [congruence|]. pose proof (first_deliveries_len b h) as G.
   remember (first_deliveries (map (map fst) (b :: h))) as K eqn:EK. clear EK I.
   inversion NE as [|? ? Hb _]; subst. destruct b as [|p b]; [congruence|].
-  destruct K as [|x K]; simpl in G; [lia|].
+  destruct K as [|x K]; [simpl in G; inversion G|].
   simpl length. rewrite Nat2N.inj_succ. apply N.neq_succ_0.
 Qed.
 
@@ -76,12 +76,16 @@ Lemma run_inv cfg h : forall L,
   fold_left (do_step2 cfg) h [FA (run_active L) L]
   = [FA (run_active (L ++ bulks_of h)) (L ++ bulks_of h)].
 Proof.
-  induction h as [|st h IH]; intros L NS W NE; simpl; [rewrite app_nil_r; reflexivity|].
-  inversion NS as [|? ? Hst NS']; subst. rewrite bulks_of_cons in *. rewrite app_assoc in W, NE.
-  rewrite step_inv; try assumption.
-  - rewrite IH; try assumption. rewrite <- !app_assoc. reflexivity.
-  - apply Forall_app in W. destruct W as [W _]. apply Forall_app in W. apply W.
-  - apply Forall_app in NE. destruct NE as [NE _]. apply Forall_app in NE. apply NE.
+  induction h as [|st h IH]; intros L NS W NE.
+  - simpl. rewrite app_nil_r. reflexivity.
+  - inversion NS as [|? ? Hst NS']; subst. rewrite bulks_of_cons in W, NE |- *.
+    rewrite app_assoc in W, NE. rewrite app_assoc.
+    change (fold_left (do_step2 cfg) (st :: h) [FA (run_active L) L])
+      with (fold_left (do_step2 cfg) h (do_step2 cfg [FA (run_active L) L] st)).
+    rewrite step_inv; try assumption.
+    + apply IH; assumption.
+    + apply Forall_app in W. destruct W as [W _]. apply Forall_app in W. apply W.
+    + apply Forall_app in NE. destruct NE as [NE _]. apply Forall_app in NE. apply NE.
 Qed.
 
 (* thm:C17_replay_idempotent *)
@@ -95,8 +99,7 @@ Lemma replay_idempotent cfg h :
      a_total live = a_total a' /\ a_from live = a_from a' /\ a_to live = a_to a'.
 Proof.
   intros NS W NE live. split; [|split].
-  - unfold run_store2, store2_empty. change active_empty with (run_active []).
-    rewrite (run_inv cfg h [] NS W NE). reflexivity.
+  - exact (run_inv cfg h [] NS W NE).
   - reflexivity.
   - apply idempotent_wf. exact W.
 Qed.
@@ -130,4 +133,371 @@ Proof.
   pose proof (rf_idem cfg s r la E) as E'. destruct la as [x|].
   - rewrite E'. reflexivity.
   - rewrite rf_snoc_empty, E'. reflexivity.
+Qed.
+
+(* ------------------------------------------------------------------ seal: a function of the observables *)
+
+Lemma tok_in_map (f : list nat -> list nat) m t : f [] = [] ->
+  tok_lids_in (map (fun p : N * list nat => (fst p, f (snd p))) m) t = f (tok_lids_in m t).
+Proof.
+  intros F. induction m as [|[k q] m IH]; simpl; [symmetry; exact F|].
+  destruct (N.eqb t k); [reflexivity|exact IH].
+Qed.
+
+Lemma stok_seal cfg a t :
+  stok_lids (seal cfg a) t = map (new_lid (all_lids a)) (get_lids (a_ids a) (tok_lids a t)).
+Proof.
+  unfold stok_lids, seal, tok_lids. simpl.
+  apply (tok_in_map (fun q => map (new_lid (all_lids a)) (get_lids (a_ids a) q))). reflexivity.
+Qed.
+
+Lemma write_sorted_ext bs ft ft' : (forall i, ft i = ft' i) -> forall ids prev st,
+  write_sorted bs ft prev ids st = write_sorted bs ft' prev ids st.
+Proof.
+  intros E. induction ids as [|i r IH]; intros prev st; simpl; [reflexivity|].
+  destruct (id_eqb i prev); [apply IH|]. rewrite <- E. destruct (ft i); [|apply IH].
+  destruct (write_doc bs st n) as [st' p]. rewrite IH. reflexivity.
+Qed.
+
+Lemma seal_ext cfg a a' :
+  a_ids a = a_ids a' -> (forall t, tok_lids a t = tok_lids a' t) ->
+  a_total a = a_total a' -> a_from a = a_from a' -> a_to a = a_to a' ->
+  (forall i, fetch a i = fetch a' i) ->
+  let s := seal cfg a in let s' := seal cfg a' in
+  s_ids s = s_ids s' /\ (forall t, stok_lids s t = stok_lids s' t) /\
+  s_total s = s_total s' /\ s_from s = s_from s' /\ s_to s = s_to s' /\
+  (sc_skipsort cfg = false -> s_pos s = s_pos s' /\ s_blocks s = s_blocks s').
+Proof.
+  intros Ei Et Etot Ef Eto Efe s s'.
+  assert (Ea : all_lids a = all_lids a') by (unfold all_lids; rewrite Ei, Et; reflexivity).
+  assert (Es : sealed_ids a = sealed_ids a').
+  { unfold sealed_ids, lid_id. rewrite Ei, Ea. reflexivity. }
+  split; [exact Es|]. split.
+  { intros t. unfold s, s'. rewrite !stok_seal, Ea, Ei, Et. reflexivity. }
+  split; [exact Etot|]. split; [exact Ef|]. split; [exact Eto|].
+  intros Sk. assert (Ed : sealed_docs cfg a = sealed_docs cfg a').
+  { unfold sealed_docs. rewrite Sk, Es. rewrite (write_sorted_ext _ _ _ Efe). reflexivity. }
+  unfold s, s', seal. cbn [s_pos s_blocks]. rewrite Es, Ed. split; reflexivity.
+Qed.
+
+(* every meta carries the all-token (the proxy adds `_all_` to every document and nested meta) *)
+Definition has_all (h : list bulk) : Prop :=
+  Forall (fun b : bulk => Forall (fun p : meta * N => In tok_all (m_toks (fst p))) b) h.
+
+(* thm:C17_seal_preserves, part 1: sealed form of the history = sealed form of the repeat-free history *)
+Lemma seal_preserves_eq cfg h : Forall bulk_wf h ->
+  let s := seal cfg (run_active h) in let s' := seal cfg (run_active (dedupb h)) in
+  s_ids s = s_ids s' /\ (forall t, stok_lids s t = stok_lids s' t) /\
+  s_total s = s_total s' /\ s_from s = s_from s' /\ s_to s = s_to s' /\
+  (sc_skipsort cfg = false -> s_pos s = s_pos s' /\ s_blocks s = s_blocks s') /\
+  s_total s = N.of_nat (length (first_deliveries (map (map fst) h))).
+Proof.
+  intros W s s'. destruct (idempotent_wf h W) as (Ei & Et & Etot & Ef & Eto).
+  assert (Efe : forall i, fetch (run_active h) i = fetch (run_active (dedupb h)) i).
+  { intros i. rewrite (run_fetch h W), (run_fetch (dedupb h) (dedupb_wf h [] W)).
+    unfold dedupb. rewrite (first_body h [] W i). reflexivity. }
+  destruct (seal_ext cfg _ _ Ei Et Etot Ef Eto Efe) as (A & B & C & D & E & F).
+  repeat (split; [assumption|]).
+  unfold s, seal. simpl. apply (ii_total _ _ (run_index h (all_wf_ok h W))).
+Qed.
+
+(* ------------------------------------------------------------------ membership in the sorted postings *)
+
+Lemma in_insert_lid ids x y l : In x (insert_lid ids y l) <-> x = y \/ In x l.
+Proof.
+  induction l as [|z l IH]; simpl; [intuition|].
+  destruct (lid_before ids z y); simpl; [rewrite IH|]; intuition.
+Qed.
+
+Lemma in_sort_lids ids x l : In x (sort_lids ids l) <-> In x l.
+Proof.
+  induction l as [|y l IH]; simpl; [tauto|]. rewrite in_insert_lid, IH. intuition.
+Qed.
+
+Lemma dedup_nat_cons2 x y r :
+  dedup_adj_nat (x :: y :: r) = if Nat.eqb x y then dedup_adj_nat (y :: r) else x :: dedup_adj_nat (y :: r).
+Proof. reflexivity. Qed.
+
+Lemma in_dedup_nat x l : In x (dedup_adj_nat l) <-> In x l.
+Proof.
+  induction l as [|a l IH]; [simpl; tauto|]. destruct l as [|b r]; [simpl; tauto|].
+  rewrite dedup_nat_cons2. destruct (Nat.eqb a b) eqn:E.
+  - apply Nat.eqb_eq in E; subst. rewrite IH. simpl. intuition.
+  - simpl In at 1. rewrite IH. simpl. intuition.
+Qed.
+
+Lemma in_get_lids ids x q : In x (get_lids ids q) <-> In x q.
+Proof. unfold get_lids. rewrite in_dedup_nat, in_sort_lids. tauto. Qed.
+
+Lemma postings_range t docs : forall first l, In l (postings t first docs) -> first <= l < first + length docs.
+Proof.
+  induction docs as [|d docs IH]; intros first l H; simpl in H; [tauto|].
+  apply in_app_or in H. destruct H as [H|H].
+  - apply repeat_spec in H. subst. simpl. lia.
+  - apply IH in H. simpl. lia.
+Qed.
+
+Lemma count_tok_in t l : In t l -> count_tok t l <> 0.
+Proof.
+  induction l as [|x l IH]; simpl; [tauto|]. intros [->|H].
+  - rewrite N.eqb_refl. lia.
+  - specialize (IH H). lia.
+Qed.
+
+Lemma postings_all t docs : (forall d, In d docs -> In t d) -> forall first l,
+  first <= l < first + length docs -> In l (postings t first docs).
+Proof.
+  induction docs as [|d docs IH]; intros A first l H; simpl in *; [lia|].
+  apply in_or_app. destruct (Nat.eq_dec l first) as [->|Ne].
+  - left. pose proof (count_tok_in t d (A d (or_introl eq_refl))) as C.
+    destruct (count_tok t d); [congruence|]. left. reflexivity.
+  - right. apply IH; [intros; apply A; right; assumption|lia].
+Qed.
+
+(* ------------------------------------------------------------------ the docs writer *)
+
+Definition blocks_of (st : wstate) : list (list (N * N)) := fst (fst st) ++ [snd (fst st)].
+Definition wst_ok (st : wstate) : Prop := Forall (fun e : N * N => (fst e < snd st)%N) (snd (fst st)).
+Definition readable (bl : list (list (N * N))) (p : pos) (b : N) : Prop :=
+  lookup_off (snd p) (nth (fst p) bl []) = Some b.
+
+Lemma lookup_off_app l1 l2 o b : lookup_off o l1 = Some b -> lookup_off o (l1 ++ l2) = Some b.
+Proof.
+  induction l1 as [|[k v] l1 IH]; simpl; [discriminate|]. destruct (N.eqb o k); [tauto|exact IH].
+Qed.
+
+Lemma lookup_off_new cur len b : Forall (fun e : N * N => (fst e < len)%N) cur ->
+  lookup_off len (cur ++ [(len, b)]) = Some b.
+Proof.
+  induction cur as [|[k v] cur IH]; intros F; simpl; [rewrite N.eqb_refl; reflexivity|].
+  inversion F as [|? ? Hk F']; subst. simpl in Hk.
+  destruct (N.eqb len k) eqn:E; [apply N.eqb_eq in E; lia|]. apply IH, F'.
+Qed.
+
+Lemma write_doc_spec bs st b st' p : write_doc bs st b = (st', p) -> wst_ok st ->
+  wst_ok st' /\ readable (blocks_of st') p b /\
+  (forall q c, fst q <= length (fst (fst st)) -> readable (blocks_of st) q c -> readable (blocks_of st') q c) /\
+  length (fst (fst st)) <= length (fst (fst st')) /\ fst p <= length (fst (fst st')).
+Proof.
+  destruct st as [[done cur] len]. unfold write_doc, wst_ok, readable, blocks_of. simpl.
+  intros E Ok. destruct (N.ltb bs (len + 4 + body_len b)) eqn:Lt; inversion E; subst; clear E; simpl.
+  - split; [constructor|]. split.
+    { rewrite <- app_assoc. simpl. rewrite app_nth2 by lia. rewrite Nat.sub_diag. simpl.
+      apply lookup_off_new, Ok. }
+    split.
+    { intros [qb qo] c Hq R. simpl in *. rewrite <- app_assoc. simpl.
+      destruct (Nat.eq_dec qb (length done)) as [->|Ne].
+      - rewrite app_nth2 in R |- * by lia. rewrite Nat.sub_diag in *. simpl in *.
+        apply lookup_off_app, R.
+      - rewrite app_nth1 in R |- * by lia. exact R. }
+    rewrite app_length. simpl. lia.
+  - split.
+    { apply Forall_app. split.
+      - eapply Forall_impl; [|exact Ok]. intros e He. simpl in *. lia.
+      - constructor; [simpl; lia|constructor]. }
+    split.
+    { rewrite app_nth2 by lia. rewrite Nat.sub_diag. simpl. apply lookup_off_new, Ok. }
+    split.
+    { intros [qb qo] c Hq R. simpl in *.
+      destruct (Nat.eq_dec qb (length done)) as [->|Ne].
+      - rewrite app_nth2 in R |- * by lia. rewrite Nat.sub_diag in *. simpl in *.
+        apply lookup_off_app, R.
+      - rewrite app_nth1 in R |- * by lia. exact R. }
+    lia.
+Qed.
+
+Lemma write_sorted_spec bs ft : forall ids prev st st' m,
+  write_sorted bs ft prev ids st = (st', m) -> wst_ok st ->
+  wst_ok st' /\ length (fst (fst st)) <= length (fst (fst st')) /\
+  (forall q c, fst q <= length (fst (fst st)) -> readable (blocks_of st) q c -> readable (blocks_of st') q c) /\
+  (forall i p, In (i, p) m -> exists b, ft i = Some b /\ readable (blocks_of st') p b) /\
+  (forall i, In i ids -> ft i <> None -> In i (map fst m) \/ i = prev).
+Proof.
+  induction ids as [|x r IH]; intros prev st st' m E Ok; simpl in E.
+  - inversion E; subst. repeat split; try tauto; try lia. intros i p [].
+  - destruct (id_eqb x prev) eqn:Ex.
+    + apply id_eqb_eq in Ex. subst x. destruct (IH _ _ _ _ E Ok) as (A & B & C & D & F).
+      repeat split; try assumption. intros i [->|Hi] Hn; [right; reflexivity|apply F; assumption].
+    + destruct (ft x) as [b|] eqn:Ef.
+      * destruct (write_doc bs st b) as [st1 p] eqn:Ew.
+        destruct (write_sorted bs ft x r st1) as [st2 m'] eqn:Er. inversion E; subst; clear E.
+        destruct (write_doc_spec _ _ _ _ _ Ew Ok) as (Ok1 & R1 & S1 & L1 & P1).
+        destruct (IH _ _ _ _ Er Ok1) as (A & B & C & D & F).
+        split; [exact A|]. split; [lia|]. split.
+        { intros q c Hq R. apply C; [lia|]. apply S1; assumption. }
+        split.
+        { intros i p0 [H|H].
+          - inversion H; subst. exists b. split; [exact Ef|]. apply C; assumption.
+          - apply D, H. }
+        intros i [->|Hi] Hn; [left; left; reflexivity|].
+        destruct (F i Hi Hn) as [H| ->]; [left; right; exact H|left; left; reflexivity].
+      * destruct (IH _ _ _ _ E Ok) as (A & B & C & D & F).
+        repeat split; try assumption. intros i [->|Hi] Hn; [congruence|].
+        destruct (F i Hi Hn) as [H| ->]; [left; exact H|congruence].
+Qed.
+
+Lemma finish_nth st blk : nth blk (finish_blocks st) [] = nth blk (blocks_of st) [].
+Proof.
+  destruct st as [[done cur] len]. unfold finish_blocks, blocks_of. simpl.
+  destruct cur; [|reflexivity].
+  destruct (Nat.lt_ge_cases blk (length done)).
+  - rewrite app_nth1 by assumption. reflexivity.
+  - rewrite nth_overflow by assumption. rewrite app_nth2 by assumption.
+    destruct (blk - length done) as [|[|k]]; reflexivity.
+Qed.
+
+Lemma lookup_pos_in i m p : lookup_pos i m = Some p -> In (i, p) m.
+Proof.
+  induction m as [|[k q] m IH]; simpl; [discriminate|]. destruct (id_eqb i k) eqn:E.
+  - apply id_eqb_eq in E. intros H; inversion H; subst. left. reflexivity.
+  - intros H. right. apply IH, H.
+Qed.
+
+Lemma lookup_pos_none i m : lookup_pos i m = None -> ~ In i (map fst m).
+Proof.
+  induction m as [|[k q] m IH]; simpl; [tauto|]. destruct (id_eqb i k) eqn:E; [discriminate|].
+  apply id_eqb_false in E. intros H [Hk|Hm]; [congruence|]. apply (IH H Hm).
+Qed.
+
+(* the position map and blocks of the sealed form answer like the active fraction *)
+Definition fetch_in (posm : list (id * pos)) (blocks : list (list (N * N))) (i : id) : option N :=
+  match lookup_pos i posm with
+  | None => None
+  | Some (blk, off) => lookup_off off (nth blk blocks [])
+  end.
+
+Lemma sealed_docs_fetch cfg a i :
+  In i (tl (sealed_ids a)) -> i <> (0, 0)%N ->
+  fetch_in (fst (sealed_docs cfg a)) (snd (sealed_docs cfg a)) i = fetch a i.
+Proof.
+  intros Hi Nz. unfold sealed_docs. destruct (sc_skipsort cfg); [reflexivity|].
+  destruct (write_sorted (sc_bs cfg) (fetch a) (0, 0)%N (tl (sealed_ids a)) ([], [], 0%N)) as [st m] eqn:E.
+  simpl. assert (Ok : wst_ok ([], [], 0%N)) by constructor.
+  destruct (write_sorted_spec _ _ _ _ _ _ _ E Ok) as (_ & _ & _ & D & F).
+  unfold fetch_in. destruct (lookup_pos i m) as [[blk off]|] eqn:El.
+  - apply lookup_pos_in in El. destruct (D _ _ El) as (b & Eb & R).
+    rewrite finish_nth. rewrite Eb. exact R.
+  - destruct (fetch a i) eqn:Ef; [|reflexivity]. exfalso.
+    destruct (F i Hi) as [H|H]; [congruence| |congruence].
+    apply (lookup_pos_none _ _ El H).
+Qed.
+
+Lemma find_from_some ids i : forall k l, find_lid_from k ids i = Some l ->
+  k <= l /\ l - k < length ids /\ nth (l - k) ids sys_id = i.
+Proof.
+  induction ids as [|x r IH]; intros k l H; simpl in H; [discriminate|].
+  destruct (id_eqb i x) eqn:E.
+  - inversion H; subst. apply id_eqb_eq in E. subst. rewrite Nat.sub_diag. simpl. repeat split; lia.
+  - destruct (IH _ _ H) as (A & B & C). replace (l - k) with (S (l - S k)) by lia. simpl. repeat split; try lia. exact C.
+Qed.
+
+Lemma find_from_none ids i : forall k, find_lid_from k ids i = None -> ~ In i ids.
+Proof.
+  induction ids as [|x r IH]; intros k H; simpl in *; [tauto|].
+  destruct (id_eqb i x) eqn:E; [discriminate|]. apply id_eqb_false in E.
+  intros [Hx|Hr]; [congruence|]. apply (IH _ H Hr).
+Qed.
+
+Lemma sealed_fetch_in cfg a i : i <> (0, 0)%N ->
+  sealed_fetch (seal cfg a) i =
+  match find_lid (seal cfg a) i with None => None | Some _ => fetch a i end.
+Proof.
+  intros Nz. unfold sealed_fetch. destruct (find_lid (seal cfg a) i) as [l|] eqn:Ef; [|reflexivity].
+  unfold find_lid in Ef. simpl in Ef. destruct (find_from_some _ _ _ _ Ef) as (A & B & C).
+  assert (Hin : In i (tl (sealed_ids a))) by (rewrite <- C; apply nth_In; exact B).
+  assert (Hl : nth l (sealed_ids a) sys_id = i).
+  { unfold sealed_ids in *. simpl in *. destruct l as [|l]; [lia|]. simpl.
+    replace (S l - 1) with l in C by lia. exact C. }
+  assert (Hlen : l < length (sealed_ids a)).
+  { unfold sealed_ids in *. simpl in *. lia. }
+  unfold seal. cbn [s_pos s_blocks].
+  rewrite (nth_indep _ None (lookup_pos sys_id (fst (sealed_docs cfg a)))) by (rewrite map_length; exact Hlen).
+  rewrite (map_nth (fun i => lookup_pos i (fst (sealed_docs cfg a)))). rewrite Hl.
+  apply (sealed_docs_fetch cfg a i Hin Nz).
+Qed.
+
+(* every first delivery is a meta of the history, hence carries the all-token *)
+Lemma first_all (hh : list (list meta)) : forall K0,
+  (forall m, In m K0 -> In tok_all (m_toks m)) ->
+  Forall (Forall (fun m => In tok_all (m_toks m))) hh ->
+  forall m, In m (fold_left (fun K ms => K ++ first_new K ms) hh K0) -> In tok_all (m_toks m).
+Proof.
+  induction hh as [|ms hh IHh]; intros K0 H0 Fh m0 Hm0; simpl in Hm0; [apply H0, Hm0|].
+  inversion Fh as [|? ? Fm Fh']; subst. apply (IHh (K0 ++ first_new K0 ms)); try assumption.
+  intros m1 H1. apply in_app_or in H1. destruct H1 as [H1|H1]; [apply H0, H1|].
+  unfold first_new in H1. apply filter_In in H1. destruct H1 as [H1 _].
+  rewrite Forall_forall in Fm. apply Fm, H1.
+Qed.
+
+(* thm:C17_sealed_fetch_first_delivery *)
+Lemma sealed_fetch_first cfg h : Forall bulk_wf h -> has_all h -> forall i, i <> (0, 0)%N ->
+  sealed_fetch (seal cfg (run_active h)) i = ref_fetch1 (concat h) i.
+Proof.
+  intros W HA i Nz. rewrite <- (run_fetch h W i). rewrite (sealed_fetch_in cfg _ i Nz).
+  destruct (find_lid (seal cfg (run_active h)) i) eqn:Ef; [reflexivity|].
+  unfold find_lid in Ef. simpl in Ef. apply find_from_none in Ef.
+  pose proof (run_index h (all_wf_ok h W)) as I. set (a := run_active h) in *.
+  set (K := first_deliveries (map (map fst) h)) in *.
+  unfold fetch. destruct (lookup_pos i (a_posm a)) eqn:El; [|reflexivity]. exfalso.
+  assert (Hk : In i (map m_id K)) by (apply (ii_keys _ _ I); congruence).
+  apply Ef. unfold sealed_ids. simpl. apply in_or_app. left.
+  apply In_nth with (d := sys_id) in Hk. destruct Hk as (n & Hn & En). rewrite map_length in Hn.
+  apply in_map_iff. exists (S n). split.
+  - unfold lid_id. rewrite (ii_ids _ _ I). simpl. exact En.
+  - unfold all_lids. apply in_get_lids. rewrite (ii_tok _ _ I). apply postings_all.
+    + intros d Hd. apply in_map_iff in Hd. destruct Hd as (m & <- & Hm).
+      apply (first_all (map (map fst) h) []); [intros ? []| |exact Hm].
+      clear -HA. induction HA as [|b hh Hb _ IH]; simpl; constructor; [|exact IH].
+      rewrite Forall_forall in *. intros m0 Hm0. apply in_map_iff in Hm0. destruct Hm0 as (p & <- & Hp).
+      apply Hb, Hp.
+    + rewrite map_length. fold K. lia.
+Qed.
+
+(* ------------------------------------------------------------------ all forms *)
+
+Lemma has_all_dedupb h : forall K, has_all h -> has_all (dedupb_from K h).
+Proof.
+  induction h as [|b h IH]; intros K HA; simpl; [constructor|].
+  inversion HA as [|? ? Hb HA']; subst. constructor; [|apply IH, HA'].
+  rewrite Forall_forall in *. intros p Hp. apply filter_In in Hp. apply Hb, Hp.
+Qed.
+
+(* thm:C17_idempotent_all_forms (partial: see Props.v) *)
+Lemma all_forms cfg h : Forall bulk_wf h -> has_all h ->
+  let a := run_active h in let a' := run_active (dedupb h) in
+  let s := seal cfg a in let s' := seal cfg a' in
+  replay h = a /\
+  (a_total a = a_total a' /\ s_total s = a_total a /\ s_total (reload s) = a_total a /\ s_total s' = a_total a) /\
+  (a_from a = a_from a' /\ s_from s = a_from a /\ s_from (reload s) = a_from a /\ s_from s' = a_from a) /\
+  (a_to a = a_to a' /\ s_to s = a_to a /\ s_to (reload s) = a_to a /\ s_to s' = a_to a) /\
+  (forall i, i <> (0, 0)%N ->
+     fetch a i = ref_fetch1 (concat h) i /\ fetch a' i = ref_fetch1 (concat h) i /\
+     sealed_fetch s i = ref_fetch1 (concat h) i /\ sealed_fetch (reload s) i = ref_fetch1 (concat h) i /\
+     sealed_fetch s' i = ref_fetch1 (concat h) i) /\
+  (forall iv gt t,
+     search_frac iv gt a t = search_frac iv gt a' t /\
+     search_frac iv gt (sealed_view s) t = search_frac iv gt (sealed_view s') t /\
+     search_frac iv gt (sealed_view (reload s)) t = search_frac iv gt (sealed_view s) t).
+Proof.
+  intros W HA a a' s s'.
+  destruct (idempotent_wf h W) as (Ei & Et & Etot & Ef & Eto).
+  destruct (seal_preserves_eq cfg h W) as (Si & St & Stot & Sf & Sto & _ & _).
+  fold a in Ei, Et, Etot, Ef, Eto. fold a' in Ei, Et, Etot, Ef, Eto. fold a a' s s' in Si, St, Stot, Sf, Sto.
+  split; [reflexivity|].
+  split; [repeat split; try assumption; try reflexivity; rewrite <- Stot; reflexivity|].
+  split; [repeat split; try assumption; try reflexivity; rewrite <- Sf; reflexivity|].
+  split; [repeat split; try assumption; try reflexivity; rewrite <- Sto; reflexivity|].
+  split.
+  - intros i Nz.
+    assert (W' : Forall bulk_wf (dedupb h)) by (apply dedupb_wf, W).
+    assert (HA' : has_all (dedupb h)) by (apply has_all_dedupb, HA).
+    assert (Ed : ref_fetch1 (concat (dedupb h)) i = ref_fetch1 (concat h) i)
+      by (unfold dedupb; rewrite (first_body h [] W i); reflexivity).
+    split; [apply run_fetch, W|]. split; [unfold a'; rewrite (run_fetch _ W'); exact Ed|].
+    split; [apply sealed_fetch_first; assumption|].
+    split; [rewrite reload_id; apply sealed_fetch_first; assumption|].
+    unfold s', a'. rewrite (sealed_fetch_first cfg _ W' HA' i Nz). exact Ed.
+  - intros iv gt t. split; [apply search_frac_ext; assumption|]. split.
+    + apply search_frac_ext; [exact Si|]. intros t0. apply St.
+    + rewrite reload_id. reflexivity.
 Qed.
